@@ -184,6 +184,12 @@ fn temp_siblings(dst: &Path) -> Vec<PathBuf> {
 /// Run one migration case in its own directory and apply the oracle.
 /// `interfere`: modify the source when migrate() reaches this point.
 fn run_case(dir: &Path, image: &[u8], allow: bool, dest_exists: bool, interfere: Option<&'static str>) -> Outcome {
+    run_case_with(dir, image, allow, dest_exists, interfere, false)
+}
+
+/// `dest_appears`: instead of modifying the source, the interfering party creates a file
+/// of its own at the destination path (without overwriting anything) at that point.
+fn run_case_with(dir: &Path, image: &[u8], allow: bool, dest_exists: bool, interfere: Option<&'static str>, dest_appears: bool) -> Outcome {
     let mut problems = Vec::new();
     let _ = std::fs::remove_dir_all(dir);
     std::fs::create_dir_all(dir).unwrap();
@@ -198,7 +204,23 @@ fn run_case(dir: &Path, image: &[u8], allow: bool, dest_exists: bool, interfere:
     let sess = Session::new();
     sess.clock.store(T0, Ordering::SeqCst);
     sess.set_flag(crate::session::F_NO_URING, true);
-    if let Some(point) = interfere {
+    let foreign = b"a file somebody else created at the destination path while migrate() ran".to_vec();
+    let foreign_created = std::sync::Arc::new(std::sync::atomic::AtomicBool::new(false));
+    if let (Some(point), true) = (interfere, dest_appears) {
+        let dst2 = dst.clone();
+        let foreign2 = foreign.clone();
+        let created = foreign_created.clone();
+        *sess.point_cb.lock() = Some(Box::new(move |name| {
+            if name == point {
+                use std::io::Write;
+                if let Ok(mut f) = std::fs::OpenOptions::new().write(true).create_new(true).open(&dst2) {
+                    let _ = f.write_all(&foreign2);
+                    let _ = f.sync_all();
+                    created.store(true, Ordering::SeqCst);
+                }
+            }
+        }));
+    } else if let Some(point) = interfere {
         let src2 = src.clone();
         *sess.point_cb.lock() = Some(Box::new(move |name| {
             if name == point {
@@ -232,6 +254,28 @@ fn run_case(dir: &Path, image: &[u8], allow: bool, dest_exists: bool, interfere:
             return Outcome { problems, migrated_ok: false };
         }
     };
+    if dest_appears {
+        let after = std::fs::read(&src).map(|b| hash128(&b)).unwrap_or(0);
+        if after != src_hash {
+            problems.push("C15: migrate() changed the source file's bytes".into());
+        }
+        if !temp_siblings(&dst).is_empty() {
+            problems.push("C15: temporary file left behind".into());
+        }
+        if foreign_created.load(Ordering::SeqCst) {
+            // the path was free when the other party created its file: that file is not ours to touch
+            match std::fs::read(&dst) {
+                Ok(b) if b == foreign => {}
+                Ok(_) => problems.push(format!("C15: a file another party created at the destination path (at {}) was overwritten or replaced", interfere.unwrap())),
+                Err(_) => problems.push(format!("C15: a file another party created at the destination path (at {}) was deleted by migrate()", interfere.unwrap())),
+            }
+            if result.is_ok() {
+                problems.push(format!("C15: migrate() reported success although the destination path was taken by another party (at {})", interfere.unwrap()));
+            }
+            return Outcome { problems, migrated_ok: false };
+        }
+        // the path was already occupied by the published store: nothing was interfered with
+    }
     // the source is never written to by migrate()
     if interfere.is_none() {
         let after = std::fs::read(&src).map(|b| hash128(&b)).unwrap_or(0);
@@ -261,7 +305,7 @@ fn run_case(dir: &Path, image: &[u8], allow: bool, dest_exists: bool, interfere:
         }
         Ok(report) => {
             // a change after the last re-check of the source (just before publication) cannot be noticed
-            if interfere.is_some() && !matches!(interfere, Some("mig_before_publish" | "mig_published")) {
+            if interfere.is_some() && !dest_appears && !matches!(interfere, Some("mig_before_publish" | "mig_published")) {
                 problems.push(format!(
                     "C15: the source changed while migrate() ran (at {}) but it reported success",
                     interfere.unwrap()
@@ -424,6 +468,12 @@ pub fn check(tier: &str, budget_s: f64, report: &mut Report) {
             evals.fetch_add(1, Ordering::Relaxed);
             for pr in o.problems {
                 bad.lock().unwrap().push((format!("{name} source modified at {p}"), pr));
+            }
+            let o = run_case_with(&dir, img, false, false, Some(p), true);
+            interfered += 1;
+            evals.fetch_add(1, Ordering::Relaxed);
+            for pr in o.problems {
+                bad.lock().unwrap().push((format!("{name} destination path taken by another party at {p}"), pr));
             }
         }
     }
